@@ -171,12 +171,33 @@ class SStream:
         return 'SStream(%s,len=%s,pos=%s)' % (self.arr, self.length, self.pos)
 
 
-class SRec:
-    """Container-like record; item and attribute access coincide."""
+KIND_IDS = {}
 
-    def __init__(self, fields=None, kind='Container'):
+
+def kind_id(name):
+    """small integer standing for a record class name in tagged records"""
+    return KIND_IDS.setdefault(name, len(KIND_IDS) + 1)
+
+
+class SRec:
+    """Container-like record; item and attribute access coincide.
+    A record merged from records of different classes (namedtuple kinds) is tagged: `tag` is the
+    integer term of its class (kind_id), `present[f]` the condition under which field f exists."""
+
+    def __init__(self, fields=None, kind='Container', tag=None, present=None):
         self.fields = dict(fields or {})
         self.kind = kind
+        self.tag = tag
+        self.present = dict(present or {})
+
+    def tag_term(self):
+        return self.tag if self.tag is not None else z3.IntVal(kind_id(self.kind))
+
+    def has(self, f):
+        """condition under which the field exists"""
+        if f not in self.fields:
+            return False
+        return self.present.get(f, True)
 
     def __repr__(self):
         return 'SRec(%s)' % (self.fields,)
